@@ -197,6 +197,11 @@ class Wavefront:
                 x = self.distribution.x
             if y is None:
                 y = self.distribution.y
+            # ray starting points are compressed by the field's vignetting
+            # factors (in Optic.trace and again in RayGenerator.generate_rays)
+            vx, vy = self.optic.fields.get_vig_factor(Hx, Hy)
+            x = x * (1 - vx)**2
+            y = y * (1 - vy)**2
             EPD = self.optic.paraxial.EPD()
             tilt_correction = ((1 - x) * np.sin(np.radians(x_tilt)) * EPD / 2 +
                                (1 - y) * np.sin(np.radians(y_tilt)) * EPD / 2)
